@@ -491,12 +491,101 @@ deriving DecidableEq, Repr
 
 def defCli : CliConf := { name := [], type := 0, secret := [], dup := 0 }
 
+/-- the last part of `radsrv`: a server was chosen; loop prevention, CHAP-Challenge completion, the new
+    Request Authenticator, User-Password re-encryption, the server's rewrite-out, Message-Authenticator,
+    TTL, and `sendrq` -/
+def radsrvForward (w : World) (o : Nat) (cc : CliConf) (m0 : Msg) (as3 : List Tlv) (ttlres : Int) (si : Nat) : World :=
+  let exit (w : World) : World := freerq w o
+  let rmclrqexit (w : World) : World := freerq (rmclientrq w o m0.id.toNat) o
+  let s := (getSrv w si).getD { conf := { name := [], type := 0, secret := [], retryCount := 0, retryInterval := 0 }, ss := 0 }
+  if loopPrevents w.opts cc s.conf then exit w
+  else
+    -- CHAP-Challenge completion
+    let as4 := if as3.any (·.t = 3) ∧ !(as3.any (·.t = 60)) then as3 ++ [{ t := 60, v := m0.auth }] else as3
+    -- new Request Authenticator
+    let (w, newauth) := if m0.code = 4 then (w, zeros 16) else takeRnd w 16
+    -- User-Password
+    let pw : Option (List Tlv) :=
+      match as4.findIdx? (·.t = 2) with
+      | none => some as4
+      | some pi =>
+        let pa := as4.getD pi { t := 2, v := [] }
+        match Crypt.pwdrecrypt w.H.md5 pa.v cc.secret s.conf.secret m0.auth newauth [] [] with
+        | none => none
+        | some c => some (as4.set pi { pa with v := c })
+    match pw with
+    | none => rmclrqexit (updRq w o fun r => { r with msg := some { m0 with attrs := as4, auth := newauth } })
+    | some as5 =>
+      let rout := dorewrite w.rx s.conf.rwOut as5
+      if s.conf.rwOut.isSome ∧ !rout.ok then rmclrqexit w
+      else
+        let as6 := if s.conf.rwOut.isSome then rout.attrs else as5
+        let as7 := if m0.code = 1 then ensureMsgAuthFront as6 else as6
+        let as8 := if ttlres = -1 ∧ (w.opts.addttl ≠ 0 ∨ s.conf.addttl ≠ 0) then
+            addttlattr w.opts.ttlType (if s.conf.addttl ≠ 0 then s.conf.addttl else w.opts.addttl) as7
+          else as7
+        let w := updRq w o fun r => { r with msg := some { m0 with attrs := as8, auth := newauth }, to := some si }
+        sendrq w o
+
+/-- routing: the realm of the (rewritten) User-Name, its server list, `choosesrvconf`, and what happens when
+    there is no server -/
+def radsrvRoute (w : World) (o : Nat) (cc : CliConf) (m0 : Msg) (as3 : List Tlv) (ttlres : Int) (uname : Bytes) : World :=
+  let exit (w : World) : World := freerq w o
+  match id2realm w (cstr uname) with
+  | none => exit w
+  | some ri =>
+    let realm := w.realms.getD ri { pattern := [] }
+    let (w, to) := match realmServers realm m0.code with
+      | some l => choosesrv w l
+      | none => (w, none)
+    match to with
+    | none =>
+      (match noServerOutcome realm m0.code with
+       | .reject msg => exit (respond w o 3 (some { t := 18, v := msg }) true)
+       | .acctResponse => exit (respond w o 5 none false)
+       | .ignore => exit w)
+    | some si => radsrvForward w o cc m0 as3 ttlres si
+
+/-- the client block's rewrite-in, the TTL check and User-Name rewriting -/
+def radsrvRewrite (w : World) (o : Nat) (cc : CliConf) (m0 : Msg) : World :=
+  let exit (w : World) : World := freerq w o
+  let rmclrqexit (w : World) : World := freerq (rmclientrq w o m0.id.toNat) o
+  let rin := dorewrite w.rx cc.rwIn m0.attrs
+  if cc.rwIn.isSome ∧ !rin.ok then rmclrqexit w
+  else
+    let as1 := if cc.rwIn.isSome then rin.attrs else m0.attrs
+    let (ttlres, as2) := checkttl w.opts.ttlType as1
+    let w := updRq w o fun r => { r with msg := some { m0 with attrs := as2 } }
+    if ttlres = 0 then exit w
+    else
+      match as2.findIdx? (·.t = 1) with
+      | none => if m0.code = 4 then exit (respond w o 5 none false) else exit w
+      | some ui =>
+        let uattr := as2.getD ui { t := 1, v := [] }
+        -- rewriteusername
+        let ru : Option (Bytes × Option Bytes) :=
+          match cc.rwUser with
+          | none => some (uattr.v, none)
+          | some rule =>
+            match modAttr w.rx rule uattr.v with
+            | none => none
+            | some nv =>
+              let orig := uattr.v
+              if (cstr orig).length ≠ nv.length ∨ orig.take nv.length ≠ nv then some (nv, some (cstr orig))
+              else some (nv, none)
+        match ru with
+        | none => rmclrqexit w
+        | some (uname, origUser) =>
+          let as3 := as2.set ui { uattr with v := uname }
+          let w := updRq w o fun r => { r with msg := some { m0 with attrs := as3 }, origUser := origUser }
+          if uname.isEmpty then rmclrqexit w       -- radattr2ascii returned NULL
+          else radsrvRoute w o cc m0 as3 ttlres uname
+
 /-- everything `radsrv` does after the message was parsed and its Message-Authenticators
     found valid; every path of this part returns 1 -/
 def radsrvCore (w : World) (o ci : Nat) (cc : CliConf) (m0 : Msg) : World :=
         let w := updRq w o fun r => { r with msg := some m0, rqid := m0.id, rqauth := m0.auth }
         let exit (w : World) : World := freerq w o
-        let rmclrqexit (w : World) : World := freerq (rmclientrq w o m0.id.toNat) o
         if m0.code = 40 then exit (respond w o 42 (some { t := 101, v := beEnc 4 406 }) true)
         else if m0.code = 43 then exit (respond w o 45 (some { t := 101, v := beEnc 4 406 }) true)
         else if m0.code ≠ 1 ∧ m0.code ≠ 12 ∧ m0.code ≠ 4 then exit w
@@ -508,80 +597,7 @@ def radsrvCore (w : World) (o ci : Nat) (cc : CliConf) (m0 : Msg) : World :=
           else if (cc.reqMA ∨ cc.reqMAProxy) ∧ (cc.type = 0 ∨ cc.type = 2) ∧ m0.code = 1 ∧
                   !(m0.attrs.any (·.t = 80)) ∧ (cc.reqMA ∨ (cc.reqMAProxy ∧ m0.attrs.any (·.t = 33))) then exit w
           else if w.opts.verifyEap ∧ m0.code = 1 ∧ !verifyEap m0 then exit (respond w o 3 none true)
-          else
-            let rin := dorewrite w.rx cc.rwIn m0.attrs
-            if cc.rwIn.isSome ∧ !rin.ok then rmclrqexit w
-            else
-              let as1 := if cc.rwIn.isSome then rin.attrs else m0.attrs
-              let (ttlres, as2) := checkttl w.opts.ttlType as1
-              let w := updRq w o fun r => { r with msg := some { m0 with attrs := as2 } }
-              if ttlres = 0 then exit w
-              else
-                match as2.findIdx? (·.t = 1) with
-                | none => if m0.code = 4 then exit (respond w o 5 none false) else exit w
-                | some ui =>
-                  let uattr := as2.getD ui { t := 1, v := [] }
-                  -- rewriteusername
-                  let ru : Option (Bytes × Option Bytes) :=
-                    match cc.rwUser with
-                    | none => some (uattr.v, none)
-                    | some rule =>
-                      match modAttr w.rx rule uattr.v with
-                      | none => none
-                      | some nv =>
-                        let orig := uattr.v
-                        if (cstr orig).length ≠ nv.length ∨ orig.take nv.length ≠ nv then some (nv, some (cstr orig))
-                        else some (nv, none)
-                  match ru with
-                  | none => rmclrqexit w
-                  | some (uname, origUser) =>
-                    let as3 := as2.set ui { uattr with v := uname }
-                    let w := updRq w o fun r => { r with msg := some { m0 with attrs := as3 }, origUser := origUser }
-                    if uname.isEmpty then rmclrqexit w       -- radattr2ascii returned NULL
-                    else
-                      match id2realm w (cstr uname) with
-                      | none => exit w
-                      | some ri =>
-                        let realm := w.realms.getD ri { pattern := [] }
-                        let (w, to) := match realmServers realm m0.code with
-                          | some l => choosesrv w l
-                          | none => (w, none)
-                        match to with
-                        | none =>
-                          (match noServerOutcome realm m0.code with
-                           | .reject msg => exit (respond w o 3 (some { t := 18, v := msg }) true)
-                           | .acctResponse => exit (respond w o 5 none false)
-                           | .ignore => exit w)
-                        | some si =>
-                          let s := (getSrv w si).getD { conf := { name := [], type := 0, secret := [], retryCount := 0, retryInterval := 0 }, ss := 0 }
-                          if loopPrevents w.opts cc s.conf then exit w
-                          else
-                            -- CHAP-Challenge completion
-                            let as4 := if as3.any (·.t = 3) ∧ !(as3.any (·.t = 60)) then as3 ++ [{ t := 60, v := m0.auth }] else as3
-                            -- new Request Authenticator
-                            let (w, newauth) := if m0.code = 4 then (w, zeros 16) else takeRnd w 16
-                            -- User-Password
-                            let pw : Option (List Tlv) :=
-                              match as4.findIdx? (·.t = 2) with
-                              | none => some as4
-                              | some pi =>
-                                let pa := as4.getD pi { t := 2, v := [] }
-                                match Crypt.pwdrecrypt w.H.md5 pa.v cc.secret s.conf.secret m0.auth newauth [] [] with
-                                | none => none
-                                | some c => some (as4.set pi { pa with v := c })
-                            match pw with
-                            | none => rmclrqexit (updRq w o fun r => { r with msg := some { m0 with attrs := as4, auth := newauth } })
-                            | some as5 =>
-                              let rout := dorewrite w.rx s.conf.rwOut as5
-                              if s.conf.rwOut.isSome ∧ !rout.ok then rmclrqexit w
-                              else
-                                let as6 := if s.conf.rwOut.isSome then rout.attrs else as5
-                                let as7 := if m0.code = 1 then ensureMsgAuthFront as6 else as6
-                                let as8 := if ttlres = -1 ∧ (w.opts.addttl ≠ 0 ∨ s.conf.addttl ≠ 0) then
-                                    addttlattr w.opts.ttlType (if s.conf.addttl ≠ 0 then s.conf.addttl else w.opts.addttl) as7
-                                  else as7
-                                let w := updRq w o fun r => { r with msg := some { m0 with attrs := as8, auth := newauth }, to := some si }
-                                sendrq w o
+          else radsrvRewrite w o cc m0
 
 /-- the client's block for the association a request came from -/
 def cliConfOf (w : World) (ci : Nat) : CliConf :=
